@@ -159,7 +159,12 @@ fn generate(args: &[String]) -> i32 {
             }
         }
         "product" => {
+            // `--only <p1,p2>`: the families whose tag starts with one of the prefixes (e.g. `sink=selfmut,sink=data`)
+            let only: Vec<&str> = util::opt(args, "--only").map(|o| o.split(',').collect()).unwrap_or_default();
             for (tag, src) in progen::product_cases() {
+                if !only.is_empty() && !only.iter().any(|p| tag.starts_with(p)) {
+                    continue;
+                }
                 let t = tag.replace(' ', "_");
                 out.line(&request_for(&src, true, Some(&t)));
             }
